@@ -106,6 +106,8 @@ type Cluster struct {
 	// Auth "" | "password" | "dse": the nodes demand authentication (PasswordAuthenticator: token -> success;
 	// DseAuthenticator: "PLAIN" -> challenge PLAIN-START -> token -> success) with AuthUser / AuthPass.
 	Auth, AuthUser, AuthPass string
+	// WidePrepared: the PREPARED result of a SELECT carries the metadata of 48 columns (a frame of a few KiB).
+	WidePrepared bool
 	// EvictAfter > 0: a node forgets a prepared statement after this many executions (atomic).
 	EvictAfter int64
 	// PeersDelay delays every answer to a read of system.peers (set and read atomically).
@@ -751,11 +753,11 @@ func (cn *Conn) handleQuery(a *Attempt, m *message.Query) {
 		if d := time.Duration(atomic.LoadInt64((*int64)(&c.PeersDelay))); d > 0 {
 			// a topology query that takes a while (a busy coordinator, a distant one)
 			h := a.Header
-			ver := a.Header.Version
+			rows := c.peersRows(cn.N, a.Header.Version) // evaluated now, delivered late
 			go func() {
 				select {
 				case <-time.After(d):
-					cn.send(&h, c.peersRows(cn.N, ver), 0, nil)
+					cn.send(&h, rows, 0, nil)
 				case <-cn.closed:
 				}
 			}()
@@ -812,11 +814,20 @@ func (cn *Conn) handlePrepare(a *Attempt, m *message.Prepare) {
 	cn.N.mu.Lock()
 	cn.N.prepared[hex.EncodeToString(id)] = prepared{Query: m.Query, Keyspace: ks}
 	cn.N.mu.Unlock()
+	rm := &message.RowsMetadata{ColumnCount: 0}
+	if strings.HasPrefix(strings.ToUpper(strings.TrimSpace(m.Query)), "SELECT") && c.WidePrepared {
+		// the result of preparing a SELECT describes its columns: a wide table makes it a frame of a few KiB
+		for i := 0; i < 48; i++ {
+			rm.Columns = append(rm.Columns, &message.ColumnMetadata{Keyspace: "a_keyspace_with_a_long_name", Table: "a_table_with_a_long_name",
+				Name: fmt.Sprintf("column_number_%02d_of_the_wide_table", i), Type: datatype.Varchar})
+		}
+		rm.ColumnCount = int32(len(rm.Columns))
+	}
 	out.Msg = &message.PreparedResult{
 		PreparedQueryId:   id,
 		ResultMetadataId:  id,
 		VariablesMetadata: &message.VariablesMetadata{},
-		ResultMetadata:    &message.RowsMetadata{ColumnCount: 0},
+		ResultMetadata:    rm,
 	}
 	cn.respond(a, out)
 }
